@@ -338,14 +338,14 @@ def close_code_cells(ctx):
     return domain, remembered
 
 
-def rule_frame_end(ctx):
+def rule_frame_end(ctx, rule_id="C02.8-message-ends-at-final-data-frame"):
     """"delivers exactly the messages RFC 6455 assigns": the fragmentation state may only change at data frames.  onFrameEnd is evaluated
     cell-wise (sa.core.tiny) over (control / data frame, FIN, text validation state, what the invalid-payload sink answers): a control
     frame between two fragments leaves the message open; a data frame ends the message exactly when it carries FIN."""
     from ..core.tiny import Tiny, Sym
     from .common import inline_private
     import itertools
-    ctx.rule("C02.8-message-ends-at-final-data-frame")
+    ctx.rule(rule_id)
     wsp = ctx.program.cls(WSP)
     fn = wsp.methods["onFrameEnd"]
     ctx.analysed(fn)
@@ -407,7 +407,7 @@ def rule_frame_end(ctx):
             elif t.env.get("self.current_frame", 0) is not None:
                 probs.append(f"{tag}: the finished frame stays current")
     except AnalysisError as e:
-        raise AnalysisError(f"[C02.8-message-ends-at-final-data-frame] onFrameEnd outside the modelled subset: {e}")
+        raise AnalysisError(f"[{rule_id}] onFrameEnd outside the modelled subset: {e}")
     ctx.ob(f"onFrameEnd: a message ends exactly at its final data frame; control frames leave the fragmentation state alone [{n} cells]", not probs, "; ".join(probs[:3]), fn.loc())
     ctx.require(n >= 15, f"only {n} cells")
 
@@ -772,6 +772,43 @@ def rule_control_dispatch(ctx):
         ctx.ob("pong only while OPEN", ("eq", "self.state", ("c", S_OPEN), True) in mf.at(calls[0][0]), "sendPong not under state == OPEN", op.loc())
         stores = [n for n in g.stmt_nodes() if op.params()[1] in __import__("sa.core.cfg", fromlist=["x"]).stored_lvalues(n)]
         ctx.ob("ping payload not modified before echo", not stores, "payload parameter reassigned in onPing", op.loc())
+    # "answers each ping with a pong carrying the same payload": every payload a ping can legally carry (0..125 octets) must go out.  onPing
+    # with sendPong evaluated in place (sa.core.tiny), cell-wise over the payload length; sendPing likewise (it is the sibling, and the automatic
+    # ping uses it)
+    from ..core.tiny import Tiny, Sym, Buf
+    from .common import inline_private
+    probs = []
+    try:
+        for fname, opcode_ in (("onPing", 10), ("sendPing", 9), ("sendPong", 10)):
+            f_ = wsp.methods[fname]
+
+            def inl(name):
+                if name in ("sendPong", "sendPing"):
+                    return wsp.methods[name].node
+                return inline_private(ctx, wsp, exclude=("sendFrame",))(name)
+            for ln in (0, 1, 124, 125, 126):
+                frames = []
+                pl = Buf(0, ln) if ln else (None if fname != "onPing" else Buf(0, 0))
+
+                def orc(fn_, a_, k_=None):
+                    if fn_ == "self.sendFrame":
+                        frames.append((list(a_), dict(k_ or {})))
+                        return None
+                    return Sym(f"<{fn_}>")
+                env = {"self": Sym("protocol"), "self.state": S_OPEN, "WebSocketProtocol.STATE_OPEN": S_OPEN, "self.log": Sym("log"), f_.params()[1]: pl}
+                r = Tiny(env, default_call=orc, inline_self=inl, opaque_globals=True, model_strings=True).run(
+                    [x for x in f_.node.body if not (isinstance(x, ast.Expr) and isinstance(x.value, ast.Constant))])
+                tag = f"{fname}(payload of {ln} octets)"
+                if ln <= 125:
+                    okf = r[0] != "raise" and len(frames) == 1 and (frames[0][1].get("opcode", frames[0][0][0] if frames[0][0] else None) == opcode_)
+                    sent = frames[0][1].get("payload", frames[0][0][1] if frames and len(frames[0][0]) > 1 else None) if frames else None
+                    if not okf or (ln and sent is not pl) or (not ln and sent is not None and not (isinstance(sent, Buf) and len(sent) == 0)):
+                        probs.append(f"{tag}: {r[0]} {str(r[1])[:50]}, frames {frames}; expected one control frame (opcode {opcode_}) with exactly this payload")
+                elif r[0] != "raise" and frames:
+                    probs.append(f"{tag}: a control frame with more than 125 octets is written")
+    except AnalysisError as e:
+        raise AnalysisError(f"[C02.5-ping-pong-dispatch] onPing / sendPong / sendPing outside the modelled subset: {e}")
+    ctx.ob("every legal ping payload (0..125 octets) is echoed in a pong; longer control payloads are never written [15 cells]", not probs, "; ".join(probs[:2]), op.loc())
     pcf = wsp.methods["processControlFrame"]
     g2, mf2, res2 = an.get(pcf)
     for opcode, cb in ((9, "_onPing"), (10, "_onPong")):
